@@ -194,10 +194,13 @@ theorem specTy_refines {m : Env} {s : SEnv} (h : RelEnv m s) :
     cases h1 : typeOf s e with
     | none => simp [h1] at hs
     | some R =>
-      simp [h1] at hs
-      subst hs
-      obtain ⟨r, hr, hrr, _⟩ := exprTy_refines h e R h1
-      exact ⟨r.ty, by simp only [specTy, hr, bind, Except.bind, pure, Except.pure], hrr⟩
+      simp only [h1] at hs
+      split at hs
+      · cases hs
+      · simp at hs
+        subst hs
+        obtain ⟨r, hr, hrr, _⟩ := exprTy_refines h e R h1
+        exact ⟨r.ty, by simp only [specTy, hr, bind, Except.bind, pure, Except.pure], hrr⟩
   | .atomicOf sp kw d, T, hs => by
     simp only [specType, bind, Option.bind] at hs
     cases h1 : specType s sp with
